@@ -10,7 +10,7 @@
     hash; a pair that is not in the table evaluates to [miss], which is never
     an id used by the harness. *)
 From Coq Require Import List ZArith NArith Bool String Ascii FMapPositive.
-From C33 Require Import Lib.Harness C18.Model C18.Spec.
+From C33 Require Import Lib.Harness C18.Model C18.Spec C18.ModelServe.
 Import ListNotations.
 Open Scope N_scope.
 
@@ -113,10 +113,21 @@ Inductive case :=
         (* per worker count: CalcMultiLayerMerkleInfo root id (0 = zero hash for the empty list),
            CalcMerkleRoot id at the same height, and the child chains as
            title start count hash quadruples *)
-        (proofs : list (N * N * list string * N * list string)).
+        (proofs : list (N * N * list string * N * list string))
         (* for multi-chain lists, per tx index: (index, child index, branch of the tx in its
            child chain, index of the chain, branch of the chain in the root list), computed by
            GetMerkleBranch as getMultiLayerProofs does *)
+| CServe (fork : bool)                (* the block's height is at/after ForkRootHash *)
+        (raw : bool)                  (* a peer block that the harness built with the list in the generated order
+                                         (false: built by util.CreateNewBlock or mined by the node itself) *)
+        (txs tb : list string)        (* txs in stored order: title id (0 = main; para ids in title-string
+                                         order), tx.Hash() id, tx.FullHash() id *)
+        (txhash : N)                  (* TxHash of the stored block header *)
+        (rows : list string)          (* LoadParaTxByHeight(height) after the fork, in listing order:
+                                         title start count childHashIndex childHash *)
+        (replies : list (N * N * list string * list (list string * N * N))).
+        (* QueryTx reply per transaction, in stored order: Index, FullHash id (0 = nil), Proofs,
+           TxProofs as (Proofs, Index, RootHash id (0 = nil)) *)
 
 Section WithTable.
   Variable m : tbl.
@@ -243,6 +254,94 @@ Section WithTable.
       forallb (fun '(_, (r, r2, cs)) =>
                  let qs := quads (nums cs) in (r =? r2) && spec_one r qs && spec_proofs r qs) pars in
     mk_verdict magree spec.
+
+  (** proof serving *)
+  Fixpoint triples_btx (l : list N) : list (btx N) :=
+    match l with
+    | t :: a :: b :: tl => mk_btx (if t =? 0 then None else Some t) a b :: triples_btx tl
+    | _ => []
+    end.
+
+  Fixpoint quints (l : list N) : list (N * N * N * N * N) :=
+    match l with
+    | a :: b :: c :: d :: e :: tl => (a, b, c, d, e) :: quints tl
+    | _ => []
+    end.
+
+  Definition title_id (t : option N) : N := match t with None => 0 | Some x => x end.
+
+  Definition row_eqb (r : prow N) (q : N * N * N * N * N) : bool :=
+    let '(t, st, cnt, idx, hh) := q in
+    (title_id (pr_title r) =? t) && (N.of_nat (pr_start r) =? st) && (N.of_nat (pr_count r) =? cnt)
+    && (N.of_nat (pr_index r) =? idx) && (pr_hash r =? hh).
+
+  Definition impl_txproof (p : list string * N * N) : txproof N :=
+    let '(b, idx, rh) := p in mk_txproof (nums b) idx (if rh =? 0 then None else Some rh).
+
+  Definition impl_reply (q : N * N * list string * list (list string * N * N)) : reply N :=
+    let '(idx, fh, b, ps) := q in mk_reply (nums b) (map impl_txproof ps) fh idx.
+
+  Definition optN_eqb (a b : option N) : bool :=
+    match a, b with
+    | None, None => true
+    | Some x, Some y => x =? y
+    | _, _ => false
+    end.
+
+  Definition txproof_eqb (a b : txproof N) : bool :=
+    nlist_eqb (tp_proofs a) (tp_proofs b) && (tp_index a =? tp_index b) && optN_eqb (tp_root a) (tp_root b).
+
+  Definition reply_eqb (a b : reply N) : bool :=
+    nlist_eqb (rp_proofs a) (rp_proofs b) && list_all2 txproof_eqb (rp_txproofs a) (rp_txproofs b)
+    && (rp_full a =? rp_full b) && (rp_index a =? rp_index b).
+
+  Fixpoint check_replies (fork : bool) (txs : list (btx N)) (i : nat) (rs : list (reply N)) : bool :=
+    match rs with
+    | [] => Nat.eqb i (List.length txs)
+    | r :: tl =>
+        match proc_query_tx N 0 H N.eqb fork false 1%Z txs i with
+        | Some mr => reply_eqb mr r
+        | None => false
+        end && check_replies fork txs (S i) tl
+    end.
+
+  (* the oracle on the implementation's replies: reply i checks for transaction i against the
+     header's TxHash, carries the transaction's index and (after the fork) its full hash, and
+     does not check for the next transaction with a different hash *)
+  Fixpoint spec_replies (fork : bool) (root : N) (txs : list (btx N)) (i : nat) (rs : list (reply N)) : bool :=
+    match rs with
+    | [] => true
+    | r :: tl =>
+        match nth_error txs i with
+        | None => false
+        | Some x =>
+            verify_reply N H N.eqb fork root (bt_hash x) (bt_full x) r
+            && (rp_index r =? N.of_nat i)
+            && (if fork then rp_full r =? bt_full x else rp_full r =? 0)
+            && match nth_error txs (Nat.modulo (S i) (List.length txs)) with
+               | None => true
+               | Some y =>
+                   if (if fork then bt_full y =? bt_full x else bt_hash y =? bt_hash x) then true
+                   else negb (verify_reply N H N.eqb fork root (bt_hash y) (bt_full y) r)
+               end
+        end && spec_replies fork root txs (S i) tl
+    end.
+
+  Definition check_serve (fork raw : bool) (txl : list N) (txhash : N) (rows : list N)
+             (replies : list (N * N * list string * list (list string * N * N))) : verdict :=
+    let txs := triples_btx txl in
+    let rs := map impl_reply replies in
+    let sorted := tsorted (map bt_title txs) in
+    let magree :=
+      optN_eqb (block_txhash N 0 H fork 1%Z txs) (Some txhash)
+      && (if fork then list_all2 row_eqb (save_para_rows N 0 H 1%Z (map (to_mtx N) txs)) (quints rows) else true)
+      && check_replies fork txs 0 rs in
+    let spec :=
+      negb (txhash =? miss) && negb (txhash =? 0)
+      && Nat.eqb (List.length rs) (List.length txs)
+      && spec_replies fork txhash txs 0 rs in
+    (* known finding 1: a received post-fork block whose list is not title-sorted was accepted *)
+    (magree, spec, if negb spec && fork && raw && negb sorted then 1 else 0).
 End WithTable.
 
 Definition check_case (c : case) : verdict :=
@@ -257,4 +356,6 @@ Definition check_case (c : case) : verdict :=
       check_pair (table_of (TExplicit t) []) (ids_of l1) (ids_of l2) r1 r2 m1 m2
   | CMulti txs t pars proofs =>
       check_multi (table_of (TExplicit t) []) (nums txs) pars proofs
+  | CServe fork raw txs t txhash rows replies =>
+      check_serve (table_of (TExplicit t) []) fork raw (nums txs) txhash (nums rows) replies
   end.
